@@ -255,7 +255,7 @@ def gen_map(rng, tier):
         yield {"defs": r}
         for _ in range(6):
             yield {"defs": mutate_record(rng, r)}
-    for i in range(n_cases(tier, 110, 3000)):
+    for i in range(n_cases(tier, 110, 9000)):
         s = G.gen_spec(rng, oneway=0.1)
         if rng.random() < 0.2:
             s["transport"] = rng.choice([None, "http://other", SOAP + "/"])
@@ -380,10 +380,33 @@ def families_of(spec):
     return out
 
 
-def gen_envmeta(rng, tier):
+def typify(rng, spec):
+    """turn some body parts given by element into parts given by a complex or builtin type
+    (late namespace decision, native types) — not the parts bound to headers or faults"""
+    for op in spec["ops"]:
+        bound = {h["part"] for h in op.get("in_headers", []) + op.get("out_headers", []) if h["msg"]["name"] in (op["in"]["name"], (op.get("out") or {}).get("name"))}
+        for m in (op["in"], op.get("out")):
+            if m is None:
+                continue
+            for p in m["parts"]:
+                if p["kind"] == "element" and p["name"] not in bound and rng.random() < 0.5:
+                    p["kind"] = "type"
+                    p["ref"] = rng.choice(["T" + p["ref"][1:], "T" + p["ref"][1:], "xsd:string", "xsd:int"])
+    return spec
+
+
+def family_specs(rng, tier):
     specs = [s for s in hand_specs() if in_fragment(s)]
-    for _ in range(n_cases(tier, 45, 700)):
-        specs.append(G.gen_spec(rng, nops=rng.choice([1, 2, 3])))
+    for _ in range(n_cases(tier, 45, 500)):
+        s = G.gen_spec(rng, nops=rng.choice([1, 2, 3]), simple_ok=rng.random() < 0.3)
+        if rng.random() < 0.3:
+            s = typify(rng, s)
+        specs.append(s)
+    return specs
+
+
+def gen_envmeta(rng, tier):
+    specs = family_specs(rng, tier)
     for spec in specs:
         fams = families_of(spec)
         for k, v in fams.items():
@@ -406,9 +429,7 @@ def impl_envmeta(a):
 def gen_reqshape(rng, tier):
     import wsdlbind as WB
 
-    specs = [s for s in hand_specs() if in_fragment(s)]
-    for _ in range(n_cases(tier, 45, 700)):
-        specs.append(G.gen_spec(rng, nops=rng.choice([1, 2, 3])))
+    specs = family_specs(rng, tier)
     dts = WB.datatypes()
     for spec in specs:
         fams = families_of(spec)
@@ -488,7 +509,7 @@ def gen_config(rng, tier):
                 "port": [{"qname": "{s}p", "attrs": [["style", "" if empty else "P"]]}] if m & 2 else [],
                 "operation": [{"qname": "{s}o", "attrs": [["style", "" if empty else "O"]]}] if m & 4 else [],
             }
-    for _ in range(n_cases(tier, 300, 5000)):
+    for _ in range(n_cases(tier, 300, 30000)):
         yield {"binding": rand_exts(rng, rng.randint(0, 3)), "port": rand_exts(rng, rng.randint(0, 2)), "operation": rand_exts(rng, rng.randint(0, 2))}
 
 
@@ -540,7 +561,7 @@ def gen_parts(rng, tier):
             for nm in NSMAPS:
                 if rng.random() < (0.5 if tier == "quick" else 1.0):
                     yield {"parts": [{"name": "p", "type": t, "element": e, "ns_map": nm}], "ns_map": [["a", "b"]]}
-    for _ in range(n_cases(tier, 150, 3000)):
+    for _ in range(n_cases(tier, 150, 30000)):
         parts = [{"name": f"p{i}", "type": rng.choice(refs), "element": rng.choice(refs), "ns_map": _dedupe(rng.choice(NSMAPS) + rng.choice([[], [["k", "v"]], [["ty", "urn:over"]]]))} for i in range(rng.randint(0, 4))]
         yield {"parts": parts, "ns_map": rng.choice(NSMAPS)}
 
@@ -620,7 +641,7 @@ def gen_client_config(rng, tier):
     vals = [None, "", "document", "rpc", SOAP, "http://h", "In", "Out", "utf-8"]
     yield {"obj": [["style", "rpc"], ["location", "http://h"], ["transport", SOAP], ["input", "In"], ["output", "Out"]], "kwargs": []}
     yield {"obj": [["style", "rpc"], ["location", "http://h"], ["transport", SOAP], ["soap_action", "a"], ["input", "In"], ["output", "Out"]], "kwargs": [["location", "http://other"], ["soap_action", None], ["encoding", "utf-8"]]}
-    for _ in range(n_cases(tier, 200, 3000)):
+    for _ in range(n_cases(tier, 200, 20000)):
         o = {rng.choice(fields): rng.choice(vals) for _ in range(rng.randint(0, 7))}
         k = {rng.choice(fields): rng.choice(vals) for _ in range(rng.randint(0, 4))}
         yield {"obj": [[a, b] for a, b in o.items()], "kwargs": [[a, b] for a, b in k.items()]}
@@ -651,7 +672,7 @@ def rand_config(rng):
     return {
         "style": rng.choice(["document", "rpc", None]),
         "location": rng.choice(["http://h/svc", None, ""]),
-        "transport": rng.choice([SOAP, SOAP, SOAP, None, "", "http://other", SOAP + "/", SOAP.upper()]),
+        "transport": rng.choice([SOAP] * 10 + [None, "", "http://other", SOAP + "/", SOAP.upper()]),
         "soap_action": rng.choice([None, "", "urn:a", "http://t/Add"]),
         "input": "In",
         "output": rng.choice(["Out", None]),
@@ -665,7 +686,7 @@ def gen_client_headers(rng, tier):
             for h in [[], [["content-type", "x"]], [["SOAPAction", "user"]], [["X-A", "1"], ["SOAPAction", "user"], ["content-type", "y"], ["Content-Type", "z"]]]:
                 c = {"style": "document", "location": "l", "transport": t, "soap_action": act, "input": "In", "output": "Out", "encoding": None}
                 yield {"config": c, "headers": h}
-    for _ in range(n_cases(tier, 200, 3000)):
+    for _ in range(n_cases(tier, 200, 20000)):
         yield {"config": rand_config(rng), "headers": rand_headers(rng)}
 
 
@@ -709,6 +730,9 @@ def impl_client_headers(a):
         return err("LEAK:" + type(e).__name__)
     if h != before or list(h) != list(before):
         return err("MUTATED-INPUT")
+    # shared state: the same client asked again (also with its own previous result) answers the same
+    if client.prepare_headers(h) != r or client.prepare_headers(dict(r)) != r:
+        return err("STATEFUL")
     return ok([[k, v] for k, v in r.items()])
 
 
@@ -753,8 +777,8 @@ def gen_client_send(rng, tier):
             for enc in [None, "", "utf-8"]:
                 c = {"style": "document", "location": "http://h/svc", "transport": t, "soap_action": "urn:a", "input": "In", "output": "Out", "encoding": enc}
                 yield {"config": c, "headers": [["X-A", "1"]], "request": r, "response": "<r/>"}
-    for _ in range(n_cases(tier, 200, 3000)):
-        r = dict(rng.choice(reqs))
+    for _ in range(n_cases(tier, 200, 20000)):
+        r = dict(rng.choice(reqs + reqs[:2]))
         r["id"] = rng.choice(["a", "b", "ü", ""])
         yield {"config": rand_config(rng), "headers": rand_headers(rng), "request": r, "response": rng.choice(["<r/>", "", "<Envelope/>"])}
 
@@ -793,7 +817,20 @@ def impl_client_send(a):
             DictDecoder.decode = orig
     if res != ("parsed", a["response"].encode()):
         return {"err": "WRONG-RESULT", "events": rec.events}
-    return ok({"events": rec.events})
+    # shared state: a second send of the same request through the same client makes the same calls
+    first = list(rec.events)
+    try:
+        if r["kind"] == "dict":
+            DictDecoder.decode = decode
+        client.send(obj, {k: v for k, v in a["headers"]})
+    except Exception:  # noqa: BLE001
+        return {"err": "STATEFUL", "events": rec.events}
+    finally:
+        if orig is not None:
+            DictDecoder.decode = orig
+    if rec.events[len(first):] != first:
+        return {"err": "STATEFUL", "events": rec.events}
+    return ok({"events": first})
 
 
 # ---------------------------------------------------------------- transport
@@ -1419,7 +1456,7 @@ CORRS = [
     Corr("wsdl.envmeta", gen_envmeta, impl_envmeta, classify=classify_envmeta,
          describe="envelope class family (Envelope/Header/Body/Fault/detail) as XmlMeta: mapper class + model of rendering/XmlMetaBuilder vs the real generated classes built by XmlContext"),
     Corr("wsdl.reqshape", gen_reqshape, impl_reqshape, compare=compare_reqshape,
-         classify=lambda a, o: ("err:" + o["err"]) if "err" in o else G.effective_style(a["spec"], a["spec"]["ops"][a["op"]]) + "+" + a["dir"],
+         classify=lambda a, o: ("err:" + o["err"]) if "err" in o else classify_envmeta(a, {"ok": [{"id": "/" + i["qname"].rsplit("}", 1)[-1]} for i in a["env"]["inner"]] + [{"id": "/detail"} for i in a["env"]["inner"] for j in i["inner"] if j["inner"]]}),
          describe="theorem request_document_shape on the real code: element names (full depth) of the document the real XmlSerializer writes for a fully populated envelope instance vs generate+abstract writer on envelopeCtx(model family + real payload classes)"),
     Corr("wsdl.config", gen_config, impl_config,
          classify=lambda a, o: "style@" + "".join(l[0] for l in ("binding", "port", "operation") if any(k.split("}")[-1] == "style" for e in a[l] for k, _ in e["attrs"])) or "style@none",
